@@ -12,6 +12,7 @@ against each other; conversions and container round trips entry by entry; shape 
 in-place tidy-up followed by further operations.
 """
 import itertools
+import importlib
 import json
 import os
 import sys
@@ -389,6 +390,19 @@ def run(tier, seed, replay):
                         attempt("matmul_outer-scale", lambda: _data.matmul_outer(XA, build(B.conj().T, fb, rng), 2 - 1j, **kw), [fa, fb], out, (2 - 1j) * (A @ B.conj().T), data=data)
                 attempt("isequal", lambda: bool(_data.isequal(XA, XB)), [fa, fb], None, bool(np.array_equal(A, B)), data=data)
                 attempt("isequal-self", lambda: bool(_data.isequal(XA, build(A, fb, rng))), [fa, fb], None, True, data=data)
+                # the tolerances of isequal mean |a - b| <= atol + rtol |b| entry by entry, in every storage: differences a few
+                # per cent inside and outside that band, for small, unit and large entries
+                if np.count_nonzero(A) and it < 8:
+                    for atol_, rtol_ in ((1e-6, 1e-3), (1e-3, 1e-2), (1e-9, 1e-5)):
+                        for mag in (0.05, 1.0, 40.0):
+                            for frac in (0.93, 1.07):
+                                Bm = A * (mag / max(np.abs(A).max(), 1e-300))
+                                nzr = np.argwhere(Bm != 0)[0]
+                                thr = atol_ + rtol_ * abs(Bm[tuple(nzr)])
+                                Am = Bm.copy()
+                                Am[tuple(nzr)] += frac * thr * (Bm[tuple(nzr)] / abs(Bm[tuple(nzr)]))
+                                want_eq = bool(np.allclose(Am, Bm, rtol=rtol_, atol=atol_))
+                                attempt("isequal-tolerance", lambda: bool(_data.isequal(build(Am, fa, rng), build(Bm, fb, rng), atol_, rtol_)), [fa, fb], None, want_eq, data=data)
                 if c == 1 and r > 1:
                     attempt("inner", lambda: _data.inner(XA, XB), [fa, fb], None, np.vdot(A, B), data=data)
                     attempt("inner-braket", lambda: _data.inner(build(A.conj().T, fa, rng), XB), [fa, fb], None, np.vdot(A, B), data=data)
@@ -450,8 +464,28 @@ def run(tier, seed, replay):
                         for oo in (False, True):
                             base_out = pattern(rng, (r, Rm.shape[1]), "full")
                             O = _data.Dense(np.asfortranarray(base_out) if oo else np.ascontiguousarray(base_out), copy=False)
-                            if isinstance(XA, (_data.CSR, _data.Dense)):
-                                attempt(name_, lambda: prod(O), [fa, "dense_f" if fo else "dense_c", "out_f" if oo else "out_c"], None, (1 + 1j) * (A @ Rm) + base_out, data=data)
+                            attempt(name_, lambda: prod(O), [fa, "dense_f" if fo else "dense_c", "out_f" if oo else "out_c"], None, (1 + 1j) * (A @ Rm) + base_out, data=data)
+                            # dense @ (operand in its storage form) into `out`, and the adjoint product
+                            if fb.startswith("dia") or fb.startswith("csr"):
+                                base2 = pattern(rng, (Bt.shape[1], c), "full") if False else pattern(rng, (r, Bt.shape[1]), "full")
+                                O2 = _data.Dense(np.asfortranarray(base2) if oo else np.ascontiguousarray(base2), copy=False)
+                                DA = _data.Dense(np.asfortranarray(A) if fo else np.ascontiguousarray(A), copy=False)
+                                attempt("matmul-out-dense-left", lambda: _data.matmul(DA, XBt, 2 - 1j, O2), ["dense_f" if fo else "dense_c", fb, "out_f" if oo else "out_c"], None, (2 - 1j) * (A @ Bt) + base2, data=data)
+                    # A @ B+ accumulated into `out`, every combination of memory orders, B dense or CSR
+                    for oo in (False, True):
+                        mmod = importlib.import_module("qutip.core.data.matmul")
+                        base3 = pattern(rng, (r, r), "full")
+                        DA = _data.Dense(np.array(A, order="F" if fo else "C"), copy=False)
+                        for rn, Rr, fn_ in (("csr", _data.to(_data.CSR, _data.Dense(A)), mmod.matmul_dag_dense_csr_dense), ("dense", _data.Dense(np.array(A, order="F" if oo else "C"), copy=False), mmod.matmul_dag_dense)):
+                            O3 = _data.Dense(np.array(base3, order="F" if oo else "C"), copy=False)
+                            attempt("matmul_dag-out:" + rn, lambda: fn_(DA, Rr, 1 - 2j, O3), ["dense_f" if fo else "dense_c", rn, "out_f" if oo else "out_c"], None, (1 - 2j) * (A @ A.conj().T) + base3, data=data)
+                    # in-place scaled sum of dense matrices in every combination of memory orders
+                    for oo in (False, True):
+                        La = pattern(rng, (r, c), "full")
+                        Ld = _data.Dense(np.asfortranarray(La) if oo else np.ascontiguousarray(La), copy=False)
+                        Rd = _data.Dense(np.asfortranarray(B) if fo else np.ascontiguousarray(B), copy=False)
+                        attempt("iadd_dense", lambda: importlib.import_module("qutip.core.data.add").iadd_dense(Ld, Rd, 3 - 2j),
+                                ["out_f" if oo else "out_c", "dense_f" if fo else "dense_c"], None, La + (3 - 2j) * B, data=data)
                 if c == 1 and r > 1:
                     longer = pattern(rng, (r + 2, 1), "full")
                     attempt("inner-bad-shape", lambda: _data.inner(XA, build(longer, fb, rng)), [fa, fb], None, None, data=data)
